@@ -24,6 +24,7 @@ func runC17(c *Ctx, r *Report) {
 	c17Limiters(c, r, "C17.R5")
 	c09R4(c, r, "C17.R7") // ... and a datagram waits for a slow (throttled) reader: the server loop hands it to the association's queue with a send that is not abandoned when the queue is full
 	c17TotalLimiterOwn(c, r, "C17.R8")
+	c17ProxyReadsThroughWrappers(c, r, "C17.R10")
 	c08AfterHandOff(c, r, "C17.R9") // "the stream stays intact" also behind the listener wrapper: the context a throttled connection waits on is not cancelled by the function that handed the connection on
 	c09R7(c, r, "C17.R6")           // throttling never loses bytes: a datagram read in batch-sized pieces (the virtual UDP connection's Read) is delivered completely, also when its length is a multiple of the batch
 }
